@@ -17,7 +17,7 @@ func Main(run *lib.Run, prop string) {
 	rig := NewRig()
 	n := run.N(600, 12000)
 	opts := Options{Padding: true, Continuation: true, BigHeaders: true, Trailers: true, Reset: true, Push: true, Priority: true,
-		WindowChanges: true, FrameSizeChanges: true, TableSizeChanges: true, NoReturn: true,
+		WindowChanges: true, FrameSizeChanges: true, TableSizeChanges: true, NoReturn: true, ManyStreams: true,
 		Policies: []string{"greedy", "stingy", "bursty", "conn-first", "stream-first"}, MaxStreams: 4, MaxBody: 70000}
 	if !run.Quick() {
 		opts.MaxStreams = 8
